@@ -1,3 +1,1373 @@
-pub fn run(_args: &vcommon::Args) -> i32 {
-    2
+//! C40 — the SDK market model agrees with the on-chain program.
+//!
+//! (a) layouts (`layout.rs`), flag bit orders, and every model-trait accessor plus a set of derived
+//!     computations on identical `Market` bytes: program `gmsol_store::states::Market` vs SDK `MarketModel`.
+//! (b) the same action (fee-state update, swap, deposit, withdrawal, position increase / decrease) executed
+//!     on the program's `RevertibleMarket` / `RevertibleLiquidityMarket` / `RevertiblePosition` (hook H1,
+//!     hand-built `AccountInfo`s, stubbed syscalls) and on the SDK's `MarketModel` / `PositionModel`
+//!     with the SDK clock pinned (hook H3): reports, resulting pools / clocks / balances / position equal.
+
+use std::sync::Arc;
+
+use anchor_lang::prelude::{Account, AccountLoader, Pubkey};
+use anchor_lang::{AccountDeserialize, AnchorSerialize, Discriminator};
+use anchor_spl::token::{spl_token, Mint};
+use spl_token::solana_program::program_pack::Pack;
+use gmsol_model::{
+    action::decrease_position::DecreasePositionFlags,
+    price::{Price, Prices},
+    Balance, BaseMarket, BaseMarketExt, BorrowingFeeMarket, BorrowingFeeMarketExt, ClockKind,
+    LiquidityMarket, LiquidityMarketExt, LiquidityMarketMutExt, MarketAction, PerpMarket, PerpMarketExt,
+    PerpMarketMutExt, PnlFactorKind, PoolKind, Position as _, PositionExt, PositionImpactMarket,
+    PositionImpactMarketExt, PositionImpactMarketMutExt, PositionMutExt, PositionState as _, SwapMarket,
+    SwapMarketMutExt,
+};
+use gmsol_programs::gmsol_store::accounts::{Market as SdkMarket, Position as SdkPosition};
+use gmsol_programs::gmsol_store::types::Pools as SdkPools;
+use gmsol_programs::model::{MarketModel, PositionModel};
+use gmsol_store::states::market::revertible::{
+    Revertible, RevertibleLiquidityMarket, RevertibleMarket, RevertiblePosition,
+};
+use gmsol_store::states::{Market, Position, Store};
+use gmsol_utils::market::{MarketConfigFlag, MarketConfigKey, MarketFlag};
+use strum::IntoEnumIterator;
+use vcommon::monitor::guard;
+use vcommon::{json, Args, Monitor, Rng};
+
+use crate::util::{self, Aligned, StaticAcct};
+
+const UNIT: u128 = 100_000_000_000_000_000_000;
+
+fn sdk_market(bytes: &[u8]) -> Result<SdkMarket, String> {
+    gmsol_sdk::utils::zero_copy::try_deserialize_zero_copy_with_options::<SdkMarket>(bytes, true)
+        .map(|z| z.0)
+        .map_err(|e| e.to_string())
+}
+
+fn sdk_position(bytes: &[u8]) -> Result<SdkPosition, String> {
+    gmsol_sdk::utils::zero_copy::try_deserialize_zero_copy_with_options::<SdkPosition>(bytes, true)
+        .map(|z| z.0)
+        .map_err(|e| e.to_string())
+}
+
+fn make_mint(supply: u64) -> Mint {
+    let raw = spl_token::state::Mint {
+        mint_authority: spl_token::solana_program::program_option::COption::None,
+        supply,
+        decimals: 9,
+        is_initialized: true,
+        freeze_authority: spl_token::solana_program::program_option::COption::None,
+    };
+    let mut buf = vec![0u8; spl_token::state::Mint::LEN];
+    raw.pack_into_slice(&mut buf);
+    Mint::try_deserialize(&mut &buf[..]).expect("mint")
+}
+
+fn mint_bytes(supply: u64) -> Vec<u8> {
+    let raw = spl_token::state::Mint {
+        mint_authority: spl_token::solana_program::program_option::COption::None,
+        supply,
+        decimals: 9,
+        is_initialized: true,
+        freeze_authority: spl_token::solana_program::program_option::COption::None,
+    };
+    let mut buf = vec![0u8; spl_token::state::Mint::LEN];
+    raw.pack_into_slice(&mut buf);
+    buf
+}
+
+/// SDK pool of a kind — hand-written mapping over the declared `Pools` fields.
+fn sdk_pool(p: &SdkPools, kind: PoolKind) -> Option<(u128, u128, u8)> {
+    let s = match kind {
+        PoolKind::Primary => &p.primary,
+        PoolKind::SwapImpact => &p.swap_impact,
+        PoolKind::ClaimableFee => &p.claimable_fee,
+        PoolKind::OpenInterestForLong => &p.open_interest_for_long,
+        PoolKind::OpenInterestForShort => &p.open_interest_for_short,
+        PoolKind::OpenInterestInTokensForLong => &p.open_interest_in_tokens_for_long,
+        PoolKind::OpenInterestInTokensForShort => &p.open_interest_in_tokens_for_short,
+        PoolKind::PositionImpact => &p.position_impact,
+        PoolKind::BorrowingFactor => &p.borrowing_factor,
+        PoolKind::FundingAmountPerSizeForLong => &p.funding_amount_per_size_for_long,
+        PoolKind::FundingAmountPerSizeForShort => &p.funding_amount_per_size_for_short,
+        PoolKind::ClaimableFundingAmountPerSizeForLong => &p.claimable_funding_amount_per_size_for_long,
+        PoolKind::ClaimableFundingAmountPerSizeForShort => &p.claimable_funding_amount_per_size_for_short,
+        PoolKind::CollateralSumForLong => &p.collateral_sum_for_long,
+        PoolKind::CollateralSumForShort => &p.collateral_sum_for_short,
+        PoolKind::TotalBorrowing => &p.total_borrowing,
+        _ => return None,
+    };
+    Some((s.pool.long_token_amount, s.pool.short_token_amount, s.pool.is_pure))
+}
+
+fn prog_pool_raw(p: &gmsol_store::states::market::pool::Pool) -> (u128, u128, u8) {
+    let v = p.try_to_vec().expect("borsh");
+    (
+        u128::from_le_bytes(v[16..32].try_into().unwrap()),
+        u128::from_le_bytes(v[32..48].try_into().unwrap()),
+        v[0],
+    )
+}
+
+// ------------------------------------------------------------------------------------------------
+// (a) accessor snapshots
+// ------------------------------------------------------------------------------------------------
+
+fn pool_str<P: Balance<Num = u128>>(p: gmsol_model::Result<&P>) -> String {
+    match p {
+        Ok(p) => format!("{:?}/{:?}", p.long_amount(), p.short_amount()),
+        Err(e) => format!("Err({e})"),
+    }
+}
+
+/// Everything the model traits expose (generic: identical code path for both implementations).
+fn snapshot<M>(m: &M, prices: &Prices<u128>, out: &mut Vec<(String, String)>)
+where
+    M: PerpMarket<20, Num = u128, Signed = i128>,
+    M::Pool: Balance<Num = u128, Signed = i128>,
+{
+    let mut put = |k: &str, v: String| out.push((k.to_string(), v));
+    put("liquidity_pool", pool_str(m.liquidity_pool()));
+    put("claimable_fee_pool", pool_str(m.claimable_fee_pool()));
+    put("swap_impact_pool", pool_str(m.swap_impact_pool()));
+    put("position_impact_pool", pool_str(m.position_impact_pool()));
+    put("borrowing_factor_pool", pool_str(m.borrowing_factor_pool()));
+    put("total_borrowing_pool", pool_str(m.total_borrowing_pool()));
+    for l in [true, false] {
+        put(&format!("open_interest_pool({l})"), pool_str(m.open_interest_pool(l)));
+        put(&format!("open_interest_in_tokens_pool({l})"), pool_str(m.open_interest_in_tokens_pool(l)));
+        put(&format!("collateral_sum_pool({l})"), pool_str(m.collateral_sum_pool(l)));
+        put(&format!("funding_amount_per_size_pool({l})"), pool_str(m.funding_amount_per_size_pool(l)));
+        put(&format!("claimable_funding_amount_per_size_pool({l})"), pool_str(m.claimable_funding_amount_per_size_pool(l)));
+        put(&format!("max_pool_amount({l})"), format!("{:?}", m.max_pool_amount(l)));
+        put(&format!("max_open_interest({l})"), format!("{:?}", m.max_open_interest(l)));
+        put(&format!("min_collateral_factor_for_open_interest_multiplier({l})"), format!("{:?}", m.min_collateral_factor_for_open_interest_multiplier(l)));
+        for k in [PnlFactorKind::MaxAfterDeposit, PnlFactorKind::MaxAfterWithdrawal, PnlFactorKind::MaxForTrader, PnlFactorKind::ForAdl, PnlFactorKind::MinAfterAdl] {
+            put(&format!("pnl_factor_config({k:?},{l})"), format!("{:?}", m.pnl_factor_config(k, l)));
+        }
+    }
+    put("virtual_inventory_for_swaps_pool", match m.virtual_inventory_for_swaps_pool() {
+        Ok(None) => "Ok(None)".into(),
+        Ok(Some(_)) => "Ok(Some)".into(),
+        Err(_) => "Err".into(),
+    });
+    put("virtual_inventory_for_positions_pool", match m.virtual_inventory_for_positions_pool() {
+        Ok(None) => "Ok(None)".into(),
+        Ok(Some(_)) => "Ok(Some)".into(),
+        Err(_) => "Err".into(),
+    });
+    put("usd_to_amount_divisor", format!("{}", m.usd_to_amount_divisor()));
+    put("reserve_factor", format!("{:?}", m.reserve_factor()));
+    put("open_interest_reserve_factor", format!("{:?}", m.open_interest_reserve_factor()));
+    put("ignore_open_interest_for_usage_factor", format!("{:?}", m.ignore_open_interest_for_usage_factor()));
+    put("swap_impact_params", format!("{:?}", m.swap_impact_params()));
+    put("swap_fee_params", format!("{:?}", m.swap_fee_params()));
+    put("position_impact_params", format!("{:?}", m.position_impact_params()));
+    put("position_impact_distribution_params", format!("{:?}", m.position_impact_distribution_params()));
+    put("passed_in_seconds_for_position_impact_distribution", format!("{:?}", m.passed_in_seconds_for_position_impact_distribution()));
+    put("borrowing_fee_params", format!("{:?}", m.borrowing_fee_params()));
+    put("passed_in_seconds_for_borrowing", format!("{:?}", m.passed_in_seconds_for_borrowing()));
+    put("borrowing_fee_kink_model_params", format!("{:?}", m.borrowing_fee_kink_model_params()));
+    put("funding_factor_per_second", format!("{}", m.funding_factor_per_second()));
+    put("funding_amount_per_size_adjustment", format!("{}", m.funding_amount_per_size_adjustment()));
+    put("funding_fee_params", format!("{:?}", m.funding_fee_params()));
+    put("position_params", format!("{:?}", m.position_params()));
+    put("order_fee_params.fee(+)", format!("{:?}", m.order_fee_params().map(|p| (p.fee::<20>(gmsol_model::pool::delta::BalanceChange::Improved, &UNIT), p.fee::<20>(gmsol_model::pool::delta::BalanceChange::Worsened, &UNIT), *p.receiver_factor()))));
+    put("liquidation_fee_params", format!("{:?}", m.liquidation_fee_params()));
+    // ---- derived computations (BaseMarketExt / PerpMarketExt / BorrowingFeeMarketExt / ...) ----
+    for l in [true, false] {
+        for mx in [true, false] {
+            put(&format!("pool_value_without_pnl_for_one_side({l},{mx})"), format!("{:?}", m.pool_value_without_pnl_for_one_side(prices, l, mx)));
+            put(&format!("pnl({l},{mx})"), format!("{:?}", m.pnl(&prices.index_token_price, l, mx)));
+            put(&format!("pnl_factor({l},{mx})"), format!("{:?}", m.pnl_factor(prices, l, mx)));
+        }
+        put(&format!("reserved_value({l})"), format!("{:?}", m.reserved_value(&prices.index_token_price, l)));
+        put(&format!("validate_pool_amount({l})"), format!("{:?}", m.validate_pool_amount(l)));
+        put(&format!("validate_reserve({l})"), format!("{:?}", m.validate_reserve(prices, l)));
+        put(&format!("validate_open_interest_reserve({l})"), format!("{:?}", m.validate_open_interest_reserve(prices, l)));
+        put(&format!("cumulative_borrowing_factor({l})"), format!("{:?}", m.cumulative_borrowing_factor(l)));
+        put(&format!("borrowing_factor_per_second({l})"), format!("{:?}", m.borrowing_factor_per_second(l, prices)));
+        put(&format!("next_cumulative_borrowing_factor({l})"), format!("{:?}", m.next_cumulative_borrowing_factor(l, prices, 3600)));
+        put(&format!("total_pending_borrowing_fees({l})"), format!("{:?}", m.total_pending_borrowing_fees(prices, l)));
+        put(&format!("min_collateral_factor_for_open_interest({l})"), format!("{:?}", m.min_collateral_factor_for_open_interest(&(12345 * UNIT as i128), l)));
+        for c in [true, false] {
+            put(&format!("funding_fee_amount_per_size({l},{c})"), format!("{:?}", m.funding_fee_amount_per_size(l, c)));
+            put(&format!("claimable_funding_fee_amount_per_size({l},{c})"), format!("{:?}", m.claimable_funding_fee_amount_per_size(l, c)));
+        }
+    }
+    put("position_impact_pool_amount", format!("{:?}", m.position_impact_pool_amount()));
+    put("pending_position_impact_pool_distribution_amount(60)", format!("{:?}", m.pending_position_impact_pool_distribution_amount(60)));
+}
+
+fn liquidity_snapshot<M>(m: &M, prices: &Prices<u128>, out: &mut Vec<(String, String)>)
+where
+    M: LiquidityMarket<20, Num = u128, Signed = i128>,
+{
+    out.push(("total_supply".into(), format!("{}", m.total_supply())));
+    for l in [true, false] {
+        out.push((format!("max_pool_value_for_deposit({l})"), format!("{:?}", m.max_pool_value_for_deposit(l))));
+        out.push((format!("validate_pool_value_for_deposit({l})"), format!("{:?}", m.validate_pool_value_for_deposit(prices, l))));
+    }
+    for k in [PnlFactorKind::MaxAfterDeposit, PnlFactorKind::MaxAfterWithdrawal] {
+        for mx in [true, false] {
+            out.push((format!("pool_value({k:?},{mx})"), format!("{:?}", m.pool_value(prices, k, mx))));
+            out.push((format!("market_token_price({k:?},{mx})"), format!("{:?}", m.market_token_price(prices, k, mx))));
+        }
+    }
+}
+
+fn position_snapshot<P>(p: &P, prices: &Prices<u128>, out: &mut Vec<(String, String)>)
+where
+    P: gmsol_model::Position<20, Num = u128, Signed = i128>,
+    P::Market: PerpMarket<20, Num = u128, Signed = i128>,
+{
+    out.push(("pos.is_long".into(), format!("{}", p.is_long())));
+    out.push(("pos.is_collateral_token_long".into(), format!("{}", p.is_collateral_token_long())));
+    out.push(("pos.are_pnl_and_collateral_tokens_the_same".into(), format!("{}", p.are_pnl_and_collateral_tokens_the_same())));
+    out.push(("pos.state".into(), format!("{} {} {} {} {} {} {}", p.collateral_amount(), p.size_in_usd(), p.size_in_tokens(), p.borrowing_factor(), p.funding_fee_amount_per_size(), p.claimable_funding_fee_amount_per_size(true), p.claimable_funding_fee_amount_per_size(false))));
+    out.push(("pos.collateral_value".into(), format!("{:?}", p.collateral_value(prices))));
+    out.push(("pos.pnl_value(full)".into(), format!("{:?}", p.pnl_value(prices, p.size_in_usd()))));
+    out.push(("pos.pending_borrowing_fee_value".into(), format!("{:?}", p.pending_borrowing_fee_value())));
+    out.push(("pos.pending_funding_fees".into(), format!("{:?}", p.pending_funding_fees())));
+    out.push(("pos.check_liquidatable(false,false)".into(), format!("{:?}", p.check_liquidatable(prices, false, false))));
+    out.push(("pos.check_liquidatable(true,true)".into(), format!("{:?}", p.check_liquidatable(prices, true, true))));
+    out.push(("pos.position_price_impact".into(), format!("{:?}", p.position_price_impact(&(777 * UNIT as i128), true))));
+    out.push(("pos.position_fees".into(), format!("{:?}", p.position_fees(p.collateral_price(prices), p.size_in_usd(), gmsol_model::pool::delta::BalanceChange::Worsened, false))));
+    out.push(("pos.position_fees(liq)".into(), format!("{:?}", p.position_fees(p.collateral_price(prices), p.size_in_usd(), gmsol_model::pool::delta::BalanceChange::Improved, true))));
+}
+
+// ------------------------------------------------------------------------------------------------
+// generators
+// ------------------------------------------------------------------------------------------------
+
+#[derive(Clone, Debug)]
+struct Scene {
+    /// market body bytes (no discriminator)
+    market: Vec<u8>,
+    prices: Prices<u128>,
+    supply: u64,
+    now: i64,
+    pure_market: bool,
+    closed: bool,
+    enabled: bool,
+    store: Pubkey,
+    long_token: Pubkey,
+    short_token: Pubkey,
+    market_token: Pubkey,
+    p_long: u128,
+    p_short: u128,
+    p_index: u128,
+    long_liq: u128,
+    short_liq: u128,
+}
+
+fn price(p: u128, rng: &mut Rng) -> Price<u128> {
+    let spread = match rng.below(4) {
+        0 => 0,
+        1 => 1,
+        _ => p / 1000 * rng.range(0, 3) as u128 + rng.range_u128(0, p / 100_000 + 1),
+    };
+    Price { min: p, max: p + spread }
+}
+
+fn rnd_price(rng: &mut Rng, decimals: u32) -> u128 {
+    // USD price 10^e * m, e in -2..=5, as unit price with 20 - decimals decimals
+    let e = rng.range(0, 7) as u32; // 10^(e-2)
+    let m = rng.range_u128(1_000, 9_999);
+    m * 10u128.pow(20 - decimals + e) / 100_000
+}
+
+/// value (in 1e20 USD units) -> token amount at `p`
+fn amt(value_usd: u128, p: u128) -> u128 {
+    value_usd.saturating_mul(UNIT) / p.max(1)
+}
+
+fn gen_scene(rng: &mut Rng, for_positions: bool) -> Scene {
+    let now: i64 = 1_700_000_000 + rng.range_i64(0, 100_000_000);
+    util::set_clock(now, 1000 + rng.range(0, 1 << 30));
+    let pure_market = rng.chance(1, 4);
+    let store = util::pk("store", rng.below(3));
+    let market_token = util::pk("mt", rng.below(1 << 20));
+    let long_token = util::pk("long", rng.below(4));
+    let short_token = if pure_market { long_token } else { util::pk("short", rng.below(4)) };
+    let index_is_long = !pure_market && rng.bool();
+    let index_token = if index_is_long { long_token } else { util::pk("index", rng.below(4)) };
+    let dl = *rng.pick(&[6u32, 8, 9]);
+    let p_long = rnd_price(rng, dl);
+    let p_short = if pure_market { p_long } else { 10u128.pow(14) + rng.range_u128(0, 10u128.pow(11)) - 5 * 10u128.pow(10) };
+    let di = *rng.pick(&[6u32, 8, 9]);
+    let p_index = if index_is_long { p_long } else { rnd_price(rng, di) };
+    let enabled = !rng.chance(1, 30);
+    let closed = rng.chance(1, 8);
+
+    // ---- base: the program's own initialisation (defaults, pool purity, buffer) ----
+    let mut buf = Aligned::zeroed(std::mem::size_of::<Market>());
+    buf.view_mut::<Market>()
+        .init(255, store, "SOL/USD[WSOL-USDC]", market_token, index_token, long_token, short_token, enabled)
+        .expect("Market::init");
+    let mut m = sdk_market(buf.bytes()).expect("decode");
+
+    // ---- scale ----
+    let long_value = rng.range_u128(1_000, 3_000_000);
+    let short_value = if pure_market { long_value } else { rng.range_u128(1_000, 3_000_000) };
+    let long_liq = amt(long_value, p_long);
+    let short_liq = amt(short_value, p_short);
+    let hostile = rng.chance(1, 6);
+    let big = |rng: &mut Rng, x: u128| -> u128 {
+        match rng.below(4) {
+            0 => 0,
+            1 => x.saturating_mul(10u128.pow(rng.range(3, 18) as u32)),
+            2 => u128::MAX >> rng.range(0, 40),
+            _ => x / 1000,
+        }
+    };
+
+    // ---- config ----
+    let c = &mut m.config;
+    let mul = |rng: &mut Rng, x: u128, lo: u64, hi: u64| x / 100 * rng.range(lo, hi) as u128;
+    c.max_pool_amount_for_long_token = mul(rng, if pure_market { long_liq } else { long_liq }, 100, 400).max(1000);
+    c.max_pool_amount_for_short_token = mul(rng, short_liq, 100, 400).max(1000);
+    c.max_pool_value_for_deposit_for_long_token = mul(rng, long_value * UNIT, 100, 400);
+    c.max_pool_value_for_deposit_for_short_token = mul(rng, short_value * UNIT, 100, 400);
+    c.max_open_interest_for_long = mul(rng, (long_value + short_value) * UNIT, 20, 150);
+    c.max_open_interest_for_short = mul(rng, (long_value + short_value) * UNIT, 20, 150);
+    c.swap_impact_exponent = *rng.pick(&[UNIT, 2 * UNIT, 2 * UNIT, UNIT * 3 / 2]);
+    c.swap_impact_positive_factor = *rng.pick(&[0u128, 100_000_000_000, 2_000_000_000_000]) / (long_value.max(1));
+    c.swap_impact_negative_factor = c.swap_impact_positive_factor * rng.range(1, 3) as u128 + *rng.pick(&[0u128, 1_000_000_000]);
+    c.swap_fee_factor_for_positive_impact = *rng.pick(&[0u128, 50_000_000_000_000_000, 30_000_000_000_000_000]);
+    c.swap_fee_factor_for_negative_impact = *rng.pick(&[0u128, 70_000_000_000_000_000, 50_000_000_000_000_000]);
+    c.swap_fee_receiver_factor = *rng.pick(&[0u128, UNIT * 37 / 100, UNIT * 70 / 100, UNIT]);
+    c.position_impact_exponent = *rng.pick(&[UNIT, 2 * UNIT, 2 * UNIT]);
+    c.position_impact_positive_factor = *rng.pick(&[0u128, 10_000_000_000_000, 500_000_000_000]) / 1000;
+    c.position_impact_negative_factor = c.position_impact_positive_factor * 2 + *rng.pick(&[0u128, 1_000_000]);
+    c.order_fee_receiver_factor = *rng.pick(&[UNIT * 37 / 100, UNIT * 70 / 100, 0]);
+    c.borrowing_fee_receiver_factor = *rng.pick(&[UNIT * 37 / 100, UNIT * 70 / 100, 0]);
+    c.liquidation_fee_receiver_factor = *rng.pick(&[UNIT * 37 / 100, UNIT * 70 / 100, 0]);
+    if rng.bool() {
+        // kink model off: exponent/factor model
+        c.borrowing_fee_optimal_usage_factor_for_long = 0;
+        c.borrowing_fee_optimal_usage_factor_for_short = 0;
+    }
+    if rng.chance(1, 3) {
+        c.borrowing_fee_factor_for_long = rng.range_u128(0, 10_000_000_000_000);
+        c.borrowing_fee_factor_for_short = rng.range_u128(0, 10_000_000_000_000);
+    }
+    if rng.chance(1, 3) {
+        c.funding_fee_increase_factor_per_second = 0; // non-adaptive funding
+        c.funding_fee_factor = rng.range_u128(0, 5_000_000_000_000);
+    }
+    if rng.chance(1, 4) {
+        c.position_impact_distribute_factor = rng.range_u128(0, UNIT);
+        c.min_position_impact_pool_amount = rng.range_u128(0, 10_000_000_000);
+    }
+    if rng.chance(1, 4) {
+        c.reserve_factor = rng.range_u128(UNIT / 10, 2 * UNIT);
+        c.open_interest_reserve_factor = rng.range_u128(UNIT / 10, c.reserve_factor);
+    }
+    if rng.chance(1, 5) {
+        c.min_collateral_factor_for_liquidation = *rng.pick(&[0u128, UNIT / 200, UNIT / 50]);
+        c.market_closed_min_collateral_factor_for_liquidation = *rng.pick(&[0u128, UNIT / 100, UNIT / 20]);
+        c.market_closed_borrowing_fee_base_factor = rng.range_u128(0, 100_000_000_000_000);
+        c.market_closed_borrowing_fee_above_optimal_usage_factor = rng.range_u128(0, 100_000_000_000_000);
+    }
+    let mut cfg_flags: u128 = c.flag.value;
+    for bit in 0..4 {
+        if rng.chance(1, 3) {
+            cfg_flags ^= 1 << bit;
+        }
+    }
+    c.flag.value = cfg_flags;
+    if hostile {
+        // one arbitrary key gets an arbitrary (possibly absurd) value
+        let keys: Vec<MarketConfigKey> = MarketConfigKey::iter().collect();
+        let k = *rng.pick(&keys);
+        let v = match rng.below(3) {
+            0 => 0,
+            1 => rng.next_u128(),
+            _ => rng.biased_u128(u128::MAX, UNIT),
+        };
+        let mut tmp = Aligned::from_bytes(bytemuck::bytes_of(&m));
+        *tmp.view_mut::<Market>().get_config_mut(&k.to_string()).unwrap() = v;
+        m = sdk_market(tmp.bytes()).unwrap();
+    }
+
+    // ---- pools ----
+    let total_value = (long_value + short_value) * UNIT;
+    let oi_long = total_value / 100 * rng.range(0, 40) as u128;
+    let oi_short = total_value / 100 * rng.range(0, 40) as u128;
+    let split = |rng: &mut Rng, x: u128| -> (u128, u128) {
+        let a = x / 100 * rng.range(0, 100) as u128;
+        (a, x - a)
+    };
+    let pools = &mut m.state.pools;
+    let set = |ps: &mut gmsol_programs::gmsol_store::types::PoolStorage, l: u128, s: u128| {
+        if ps.pool.is_pure != 0 {
+            ps.pool.long_token_amount = l.saturating_add(s);
+            ps.pool.short_token_amount = 0;
+        } else {
+            ps.pool.long_token_amount = l;
+            ps.pool.short_token_amount = s;
+        }
+    };
+    if pure_market {
+        set(&mut pools.primary, long_liq, 0);
+    } else {
+        set(&mut pools.primary, long_liq, short_liq);
+    }
+    set(&mut pools.swap_impact, long_liq / 10_000 * rng.range(0, 20) as u128, short_liq / 10_000 * rng.range(0, 20) as u128);
+    set(&mut pools.claimable_fee, long_liq / 100_000 * rng.range(0, 50) as u128, short_liq / 100_000 * rng.range(0, 50) as u128);
+    let (a, b) = split(rng, oi_long);
+    set(&mut pools.open_interest_for_long, a, b);
+    let wob = |rng: &mut Rng, x: u128| x / 100 * rng.range(80, 125) as u128;
+    set(&mut pools.open_interest_in_tokens_for_long, wob(rng, amt(a / UNIT, p_index)), wob(rng, amt(b / UNIT, p_index)));
+    let lev = rng.range(2, 20) as u128;
+    set(&mut pools.collateral_sum_for_long, amt(a / UNIT / lev, p_long), amt(b / UNIT / lev, p_short));
+    let (a2, b2) = split(rng, oi_short);
+    set(&mut pools.open_interest_for_short, a2, b2);
+    set(&mut pools.open_interest_in_tokens_for_short, wob(rng, amt(a2 / UNIT, p_index)), wob(rng, amt(b2 / UNIT, p_index)));
+    set(&mut pools.collateral_sum_for_short, amt(a2 / UNIT / lev, p_long), amt(b2 / UNIT / lev, p_short));
+    pools.position_impact.pool.long_token_amount = amt(oi_long / UNIT / 1000 * rng.range(0, 10) as u128, p_index);
+    let bf_l = rng.range_u128(0, UNIT / 2);
+    let bf_s = rng.range_u128(0, UNIT / 2);
+    pools.borrowing_factor.pool.long_token_amount = bf_l;
+    pools.borrowing_factor.pool.short_token_amount = bf_s;
+    pools.total_borrowing.pool.long_token_amount = mul_div(oi_long, bf_l, UNIT) / 100 * rng.range(50, 100) as u128;
+    pools.total_borrowing.pool.short_token_amount = mul_div(oi_short, bf_s, UNIT) / 100 * rng.range(50, 100) as u128;
+    let f = |rng: &mut Rng| rng.log_u128(1_000_000_000_000_000);
+    let (x1, x2, x3, x4) = (f(rng), f(rng), f(rng), f(rng));
+    set(&mut pools.funding_amount_per_size_for_long, x1, if pure_market { 0 } else { x2 });
+    set(&mut pools.funding_amount_per_size_for_short, x3, if pure_market { 0 } else { x4 });
+    let (y1, y2, y3, y4) = (f(rng), f(rng), f(rng), f(rng));
+    set(&mut pools.claimable_funding_amount_per_size_for_long, y1, if pure_market { 0 } else { y2 });
+    set(&mut pools.claimable_funding_amount_per_size_for_short, y3, if pure_market { 0 } else { y4 });
+    if hostile && rng.bool() {
+        // one arbitrary pool side gets an arbitrary value
+        let kinds: Vec<PoolKind> = PoolKind::iter().collect();
+        let k = *rng.pick(&kinds);
+        let v = big(rng, long_liq);
+        let target = match k {
+            PoolKind::Primary => &mut pools.primary,
+            PoolKind::SwapImpact => &mut pools.swap_impact,
+            PoolKind::ClaimableFee => &mut pools.claimable_fee,
+            PoolKind::OpenInterestForLong => &mut pools.open_interest_for_long,
+            PoolKind::OpenInterestForShort => &mut pools.open_interest_for_short,
+            PoolKind::OpenInterestInTokensForLong => &mut pools.open_interest_in_tokens_for_long,
+            PoolKind::OpenInterestInTokensForShort => &mut pools.open_interest_in_tokens_for_short,
+            PoolKind::PositionImpact => &mut pools.position_impact,
+            PoolKind::BorrowingFactor => &mut pools.borrowing_factor,
+            PoolKind::FundingAmountPerSizeForLong => &mut pools.funding_amount_per_size_for_long,
+            PoolKind::FundingAmountPerSizeForShort => &mut pools.funding_amount_per_size_for_short,
+            PoolKind::ClaimableFundingAmountPerSizeForLong => &mut pools.claimable_funding_amount_per_size_for_long,
+            PoolKind::ClaimableFundingAmountPerSizeForShort => &mut pools.claimable_funding_amount_per_size_for_short,
+            PoolKind::CollateralSumForLong => &mut pools.collateral_sum_for_long,
+            PoolKind::CollateralSumForShort => &mut pools.collateral_sum_for_short,
+            _ => &mut pools.total_borrowing,
+        };
+        if target.pool.is_pure != 0 || rng.bool() {
+            target.pool.long_token_amount = v;
+        } else {
+            target.pool.short_token_amount = v;
+        }
+    }
+
+    // ---- clocks / other ----
+    let dt = |rng: &mut Rng| -> i64 {
+        match rng.below(8) {
+            0 => 0,
+            1 => 1,
+            2 => -rng.range_i64(1, 1000), // clock in the future: passed seconds saturate to 0
+            3 => 86_400 * rng.range_i64(1, 30),
+            _ => rng.range_i64(1, 7200),
+        }
+    };
+    m.state.clocks.price_impact_distribution = now - dt(rng);
+    m.state.clocks.borrowing = now - dt(rng);
+    m.state.clocks.funding = now - dt(rng);
+    m.state.clocks.adl_for_long = now - dt(rng);
+    m.state.clocks.adl_for_short = now - dt(rng);
+    let slack = |rng: &mut Rng, x: u128| -> u64 { (x + x / 100 * rng.range(0, 5) as u128).min(u64::MAX as u128) as u64 };
+    let p = &m.state.pools;
+    let long_need = p.primary.pool.long_token_amount + p.swap_impact.pool.long_token_amount + p.claimable_fee.pool.long_token_amount + p.collateral_sum_for_long.pool.long_token_amount + p.collateral_sum_for_short.pool.long_token_amount;
+    let short_need = p.primary.pool.short_token_amount + p.swap_impact.pool.short_token_amount + p.claimable_fee.pool.short_token_amount + p.collateral_sum_for_long.pool.short_token_amount + p.collateral_sum_for_short.pool.short_token_amount;
+    m.state.other.long_token_balance = slack(rng, long_need);
+    m.state.other.short_token_balance = if pure_market { 0 } else { slack(rng, short_need) };
+    if rng.chance(1, 20) {
+        m.state.other.long_token_balance /= 2; // under-funded vault record
+    }
+    m.state.other.funding_factor_per_second = rng.range_i64(-1_000_000_000_000, 1_000_000_000_000) as i128;
+    m.state.other.trade_count = rng.log_u64(1 << 40);
+    m.buffer.rev = 1 + rng.log_u64(1 << 30);
+
+    // ---- flags ----
+    let mut tmp = Aligned::from_bytes(bytemuck::bytes_of(&m));
+    {
+        let pm = tmp.view_mut::<Market>();
+        pm.set_flag(MarketFlag::Closed, closed && !(for_positions && rng.chance(9, 10)));
+        pm.set_adl_enabled(true, rng.bool());
+        pm.set_adl_enabled(false, rng.bool());
+        pm.set_is_gt_minting_enabled(rng.bool());
+    }
+    let closed = tmp.view::<Market>().is_closed();
+    let supply_value = long_value + if pure_market { 0 } else { short_value };
+    let supply = (supply_value * 1_000_000_000 / 100 * rng.range(70, 130) as u128).min(u64::MAX as u128) as u64;
+    Scene {
+        market: tmp.bytes().to_vec(),
+        prices: Prices {
+            index_token_price: price(p_index, rng),
+            long_token_price: price(p_long, rng),
+            short_token_price: if pure_market { price(p_long, rng) } else { price(p_short, rng) },
+        },
+        supply,
+        now,
+        pure_market,
+        closed,
+        enabled,
+        store,
+        long_token,
+        short_token,
+        market_token,
+        p_long,
+        p_short,
+        p_index,
+        long_liq,
+        short_liq,
+    }
+}
+
+fn mul_div(a: u128, b: u128, d: u128) -> u128 {
+    use vcommon::num_traits::ToPrimitive;
+    (vcommon::big::b(a) * vcommon::big::b(b) / vcommon::big::b(d)).to_u128().unwrap_or(u128::MAX)
+}
+
+fn gen_position(rng: &mut Rng, sc: &Scene, fresh: bool) -> (Position, bool) {
+    let mut p = Position::default();
+    let is_long = rng.bool();
+    let collateral_long = rng.bool();
+    p.kind = if is_long { 1 } else { 2 };
+    p.bump = 254;
+    let store_mismatch = rng.chance(1, 40);
+    p.store = if store_mismatch { util::pk("other-store", 1) } else { sc.store };
+    p.owner = util::pk("owner", rng.below(8));
+    p.market_token = sc.market_token;
+    p.collateral_token = if collateral_long { sc.long_token } else { sc.short_token };
+    p.created_at = sc.now - 10_000;
+    if !fresh {
+        // an existing position consistent with the pools (a fraction of the side's open interest)
+        let m = sdk_market(&sc.market).unwrap();
+        let oi_pool = if is_long { &m.state.pools.open_interest_for_long } else { &m.state.pools.open_interest_for_short };
+        let oit_pool = if is_long { &m.state.pools.open_interest_in_tokens_for_long } else { &m.state.pools.open_interest_in_tokens_for_short };
+        let cs_pool = if is_long { &m.state.pools.collateral_sum_for_long } else { &m.state.pools.collateral_sum_for_short };
+        let pick = |ps: &gmsol_programs::gmsol_store::types::PoolStorage, long_side: bool| -> u128 {
+            if ps.pool.is_pure != 0 {
+                if long_side { ps.pool.long_token_amount.div_ceil(2) } else { ps.pool.long_token_amount / 2 }
+            } else if long_side {
+                ps.pool.long_token_amount
+            } else {
+                ps.pool.short_token_amount
+            }
+        };
+        let frac = rng.range(1, 100) as u128;
+        p.state.size_in_usd = pick(oi_pool, collateral_long) / 100 * frac;
+        p.state.size_in_tokens = pick(oit_pool, collateral_long) / 100 * frac;
+        p.state.collateral_amount = pick(cs_pool, collateral_long) / 100 * frac;
+        let bf = if is_long { m.state.pools.borrowing_factor.pool.long_token_amount } else { m.state.pools.borrowing_factor.pool.short_token_amount };
+        p.state.borrowing_factor = bf / 100 * rng.range(50, 100) as u128;
+        let fa = if is_long { &m.state.pools.funding_amount_per_size_for_long } else { &m.state.pools.funding_amount_per_size_for_short };
+        p.state.funding_fee_amount_per_size = pick(fa, collateral_long) / 100 * rng.range(50, 100) as u128;
+        let cf = if is_long { &m.state.pools.claimable_funding_amount_per_size_for_long } else { &m.state.pools.claimable_funding_amount_per_size_for_short };
+        p.state.long_token_claimable_funding_amount_per_size = pick(cf, true) / 100 * rng.range(50, 100) as u128;
+        p.state.short_token_claimable_funding_amount_per_size = pick(cf, false) / 100 * rng.range(50, 100) as u128;
+        p.state.trade_id = rng.log_u64(1 << 30);
+        p.state.increased_at = sc.now - rng.range_i64(0, 100_000);
+        p.state.decreased_at = sc.now - rng.range_i64(0, 100_000);
+        if rng.chance(1, 10) {
+            // make it unhealthy
+            p.state.collateral_amount /= 50;
+        }
+    }
+    (p, store_mismatch)
+}
+
+// ------------------------------------------------------------------------------------------------
+// (b) executing actions on both sides
+// ------------------------------------------------------------------------------------------------
+
+#[derive(Debug, Clone, PartialEq, Eq)]
+struct Post {
+    pools: Vec<(u128, u128)>,
+    clocks: [i64; 5],
+    balances: (u64, u64),
+    funding_factor_per_second: i128,
+    position: Option<[u128; 7]>,
+    /// mint/burn amounts decided by the action
+    minted_burnt: Option<(u64, u64)>,
+}
+
+#[derive(Debug, Clone)]
+struct Outcome {
+    result: Result<Vec<u8>, String>,
+    report_dbg: String,
+    post: Option<Post>,
+    trade_count: Option<u64>,
+}
+
+struct World {
+    market: StaticAcct,
+    store: StaticAcct,
+    position: StaticAcct,
+    mint: StaticAcct,
+    event_authority: StaticAcct,
+    token_program: StaticAcct,
+    receiver: StaticAcct,
+    vault: StaticAcct,
+}
+
+impl World {
+    fn new() -> Self {
+        let pid = gmsol_store::ID;
+        Self {
+            market: StaticAcct::new(util::pk("acct-market", 0), pid, 8 + std::mem::size_of::<Market>(), false, true),
+            store: StaticAcct::new(util::pk("acct-store", 0), pid, 8 + std::mem::size_of::<Store>(), false, true),
+            position: StaticAcct::new(util::pk("acct-position", 0), pid, 8 + std::mem::size_of::<Position>(), false, true),
+            mint: StaticAcct::new(util::pk("acct-mint", 0), spl_token::ID, spl_token::state::Mint::LEN, false, true),
+            event_authority: StaticAcct::new(util::pk("acct-event-authority", 0), pid, 0, false, false),
+            token_program: StaticAcct::new(spl_token::ID, util::pk("bpf-loader", 0), 0, false, false),
+            receiver: StaticAcct::new(util::pk("acct-receiver", 0), spl_token::ID, 165, false, true),
+            vault: StaticAcct::new(util::pk("acct-vault", 0), spl_token::ID, 165, false, true),
+        }
+    }
+
+    fn load(&self, sc: &Scene, pos: Option<&Position>) {
+        let mut d = Vec::with_capacity(8 + sc.market.len());
+        d.extend_from_slice(Market::DISCRIMINATOR);
+        d.extend_from_slice(&sc.market);
+        self.market.set_data(&d);
+        let mut s = vec![0u8; 8 + std::mem::size_of::<Store>()];
+        s[..8].copy_from_slice(Store::DISCRIMINATOR);
+        self.store.set_data(&s);
+        self.mint.set_data(&mint_bytes(sc.supply));
+        let mut p = vec![0u8; 8 + std::mem::size_of::<Position>()];
+        p[..8].copy_from_slice(Position::DISCRIMINATOR);
+        if let Some(pos) = pos {
+            p[8..].copy_from_slice(bytemuck::bytes_of(pos));
+        }
+        self.position.set_data(&p);
+    }
+}
+
+fn clocks_of(c: &gmsol_store::states::market::Clocks) -> [i64; 5] {
+    // `Clocks` has no getters: Borsh layout = padding[8], rev u64, then the five clocks
+    let v = c.try_to_vec().expect("borsh");
+    let g = |i: usize| i64::from_le_bytes(v[16 + 8 * i..24 + 8 * i].try_into().unwrap());
+    [g(0), g(1), g(2), g(3), g(4)]
+}
+
+fn post_of_program(rm: &RevertibleMarket<'_, '_>, position: Option<[u128; 7]>, minted_burnt: Option<(u64, u64)>) -> (Post, u64) {
+    let pools = PoolKind::iter()
+        .filter_map(|k| rm.verif_pool(k))
+        .map(|p| {
+            let (l, s, _) = prog_pool_raw(&p);
+            (l, s)
+        })
+        .collect();
+    let o = rm.verif_other();
+    (
+        Post {
+            pools,
+            clocks: clocks_of(rm.verif_clocks()),
+            balances: (o.long_token_balance_raw(), o.short_token_balance_raw()),
+            funding_factor_per_second: o.funding_factor_per_second(),
+            position,
+            minted_burnt,
+        },
+        o.trade_count(),
+    )
+}
+
+fn post_of_sdk(m: &SdkMarket, position: Option<[u128; 7]>, minted_burnt: Option<(u64, u64)>) -> Post {
+    let pools = PoolKind::iter()
+        .filter_map(|k| sdk_pool(&m.state.pools, k))
+        .map(|(l, s, _)| (l, s))
+        .collect();
+    let c = &m.state.clocks;
+    Post {
+        pools,
+        clocks: [c.price_impact_distribution, c.borrowing, c.funding, c.adl_for_long, c.adl_for_short],
+        balances: (m.state.other.long_token_balance, m.state.other.short_token_balance),
+        funding_factor_per_second: m.state.other.funding_factor_per_second,
+        position,
+        minted_burnt,
+    }
+}
+
+fn pos_state_prog(s: &gmsol_store::states::position::PositionState) -> [u128; 7] {
+    [
+        s.collateral_amount,
+        s.size_in_usd,
+        s.size_in_tokens,
+        s.borrowing_factor,
+        s.funding_fee_amount_per_size,
+        s.long_token_claimable_funding_amount_per_size,
+        s.short_token_claimable_funding_amount_per_size,
+    ]
+}
+
+fn pos_state_sdk(s: &gmsol_programs::gmsol_store::types::PositionState) -> [u128; 7] {
+    [
+        s.collateral_amount,
+        s.size_in_usd,
+        s.size_in_tokens,
+        s.borrowing_factor,
+        s.funding_fee_amount_per_size,
+        s.long_token_claimable_funding_amount_per_size,
+        s.short_token_claimable_funding_amount_per_size,
+    ]
+}
+
+#[derive(Clone, Debug)]
+enum Action {
+    UpdateFees,
+    Swap { long_in: bool, amount: u128 },
+    Deposit { long: u128, short: u128 },
+    Withdraw { amount: u128 },
+    Increase { collateral: u128, size_delta_usd: u128, acceptable: Option<u128> },
+    Decrease { size_delta_usd: u128, acceptable: Option<u128>, withdraw: u128, insolvent_ok: bool, liquidation: bool, cap: bool },
+}
+
+impl Action {
+    fn name(&self) -> &'static str {
+        match self {
+            Action::UpdateFees => "update_fees",
+            Action::Swap { .. } => "swap",
+            Action::Deposit { .. } => "deposit",
+            Action::Withdraw { .. } => "withdraw",
+            Action::Increase { .. } => "increase",
+            Action::Decrease { .. } => "decrease",
+        }
+    }
+    fn to_json(&self) -> vcommon::serde_json::Value {
+        match self {
+            Action::UpdateFees => json!({"action": "update_fees"}),
+            Action::Swap { long_in, amount } => json!({"action": "swap", "is_token_in_long": long_in, "token_in_amount": amount.to_string()}),
+            Action::Deposit { long, short } => json!({"action": "deposit", "long_token_amount": long.to_string(), "short_token_amount": short.to_string()}),
+            Action::Withdraw { amount } => json!({"action": "withdraw", "market_token_amount": amount.to_string()}),
+            Action::Increase { collateral, size_delta_usd, acceptable } => json!({"action": "increase", "collateral_increment_amount": collateral.to_string(), "size_delta_usd": size_delta_usd.to_string(), "acceptable_price": acceptable.map(|x| x.to_string())}),
+            Action::Decrease { size_delta_usd, acceptable, withdraw, insolvent_ok, liquidation, cap } => json!({"action": "decrease", "size_delta_usd": size_delta_usd.to_string(), "acceptable_price": acceptable.map(|x| x.to_string()), "collateral_withdrawal_amount": withdraw.to_string(), "is_insolvent_close_allowed": insolvent_ok, "is_liquidation_order": liquidation, "is_cap_size_delta_usd_allowed": cap}),
+        }
+    }
+}
+
+fn ser<T: AnchorSerialize>(t: &T) -> Vec<u8> {
+    t.try_to_vec().expect("serialize report")
+}
+
+/// Run `action` on the program's revertible types. Commits on success; returns the buffered post state.
+fn run_program(w: &World, sc: &Scene, action: &Action) -> Result<Outcome, String> {
+    let prices = sc.prices;
+    guard(|| -> Outcome {
+        let fail = |e: String| Outcome { result: Err(e), report_dbg: String::new(), post: None, trade_count: None };
+        let loader = match AccountLoader::<Market>::try_from(w.market.info) {
+            Ok(l) => l,
+            Err(e) => return fail(format!("harness: market loader: {e}")),
+        };
+        let mut rm = match RevertibleMarket::verif_new(&loader, w.event_authority.info, 255) {
+            Ok(r) => r,
+            Err(e) => return fail(format!("harness: RevertibleMarket::new: {e}")),
+        };
+        match action {
+            Action::UpdateFees => {
+                let r = (|| -> gmsol_model::Result<(Vec<u8>, String)> {
+                    // (the SDK's MarketModel has no BorrowingFeeMarketMut: update_borrowing has no SDK twin)
+                    let a = rm.distribute_position_impact()?.execute()?;
+                    let c = rm.update_funding(&prices)?.execute()?;
+                    let mut v = ser(&a);
+                    v.extend(ser(&c));
+                    Ok((v, format!("{a:?} {c:?}")))
+                })();
+                match r {
+                    Ok((v, d)) => {
+                        let (post, tc) = post_of_program(&rm, None, None);
+                        rm.commit();
+                        Outcome { result: Ok(v), report_dbg: d, post: Some(post), trade_count: Some(tc) }
+                    }
+                    Err(e) => fail(e.to_string()),
+                }
+            }
+            Action::Swap { long_in, amount } => {
+                let r = rm.swap(*long_in, *amount, prices).and_then(|a| a.execute());
+                match r {
+                    Ok(rep) => {
+                        let (post, tc) = post_of_program(&rm, None, None);
+                        rm.commit();
+                        Outcome { result: Ok(ser(&rep)), report_dbg: format!("{rep:?}"), post: Some(post), trade_count: Some(tc) }
+                    }
+                    Err(e) => fail(e.to_string()),
+                }
+            }
+            Action::Deposit { .. } | Action::Withdraw { .. } => {
+                let mint = match Account::<Mint>::try_from(w.mint.info) {
+                    Ok(a) => a,
+                    Err(e) => return fail(format!("harness: mint account: {e}")),
+                };
+                let store = match AccountLoader::<Store>::try_from(w.store.info) {
+                    Ok(a) => a,
+                    Err(e) => return fail(format!("harness: store loader: {e}")),
+                };
+                let mut lm = match RevertibleLiquidityMarket::verif_new(rm, &mint, w.token_program.info, &store, Some(w.receiver.info), Some(w.vault.info)) {
+                    Ok(l) => l,
+                    Err(e) => return fail(format!("harness: liquidity market: {e}")),
+                };
+                let r: gmsol_model::Result<(Vec<u8>, String)> = match action {
+                    Action::Deposit { long, short } => lm.deposit(*long, *short, prices).and_then(|a| a.execute()).map(|rep| (ser(&rep), format!("{rep:?}"))),
+                    Action::Withdraw { amount } => lm.withdraw(*amount, prices).and_then(|a| a.execute()).map(|rep| (ser(&rep), format!("{rep:?}"))),
+                    _ => unreachable!(),
+                };
+                match r {
+                    Ok((v, d)) => {
+                        let mb = lm.verif_deferred();
+                        let (post, tc) = post_of_program(lm.verif_base(), None, Some(mb));
+                        // not committed: commit would CPI into the token program (stubbed); the buffered
+                        // view is what the commit copies (C21 covers commit itself)
+                        Outcome { result: Ok(v), report_dbg: d, post: Some(post), trade_count: Some(tc) }
+                    }
+                    Err(e) => fail(e.to_string()),
+                }
+            }
+            Action::Increase { .. } | Action::Decrease { .. } => {
+                let ploader = match AccountLoader::<Position>::try_from(w.position.info) {
+                    Ok(l) => l,
+                    Err(e) => return fail(format!("harness: position loader: {e}")),
+                };
+                let mut pos = match RevertiblePosition::verif_new(rm, &ploader, false) {
+                    Ok(p) => p,
+                    Err(e) => return fail(format!("program: RevertiblePosition::new: {e}")),
+                };
+                let r: gmsol_model::Result<(Vec<u8>, String)> = match action {
+                    Action::Increase { collateral, size_delta_usd, acceptable } => pos
+                        .increase(prices, *collateral, *size_delta_usd, *acceptable)
+                        .and_then(|a| a.execute())
+                        .map(|rep| (ser(&rep), format!("{rep:?}"))),
+                    Action::Decrease { size_delta_usd, acceptable, withdraw, insolvent_ok, liquidation, cap } => pos
+                        .decrease(prices, *size_delta_usd, *acceptable, *withdraw, DecreasePositionFlags { is_insolvent_close_allowed: *insolvent_ok, is_liquidation_order: *liquidation, is_cap_size_delta_usd_allowed: *cap })
+                        .and_then(|a| a.execute())
+                        .map(|rep| (ser(&*rep), format!("{rep:?}"))),
+                    _ => unreachable!(),
+                };
+                match r {
+                    Ok((v, d)) => {
+                        let st = pos_state_prog(pos.verif_state());
+                        let (post, tc) = post_of_program(pos.market(), Some(st), None);
+                        pos.commit();
+                        Outcome { result: Ok(v), report_dbg: d, post: Some(post), trade_count: Some(tc) }
+                    }
+                    Err(e) => fail(e.to_string()),
+                }
+            }
+        }
+    })
+}
+
+/// Run `action` on the SDK model built from the same bytes.
+fn run_sdk(sc: &Scene, pos: Option<&Position>, action: &Action) -> Result<Outcome, String> {
+    let prices = sc.prices;
+    let market = sdk_market(&sc.market)?;
+    let spos = match pos {
+        Some(p) => Some(sdk_position(bytemuck::bytes_of(p))?),
+        None => None,
+    };
+    let supply = sc.supply;
+    guard(move || -> Outcome {
+        let fail = |e: String| Outcome { result: Err(e), report_dbg: String::new(), post: None, trade_count: None };
+        let mut model = MarketModel::from_parts(Arc::new(market), supply);
+        match action {
+            Action::UpdateFees => {
+                let r = (|| -> gmsol_model::Result<(Vec<u8>, String)> {
+                    let a = model.distribute_position_impact()?.execute()?;
+                    let c = model.update_funding(&prices)?.execute()?;
+                    let mut v = ser(&a);
+                    v.extend(ser(&c));
+                    Ok((v, format!("{a:?} {c:?}")))
+                })();
+                match r {
+                    Ok((v, d)) => Outcome { result: Ok(v), report_dbg: d, post: Some(post_of_sdk(&model, None, None)), trade_count: Some(model.state.other.trade_count) },
+                    Err(e) => fail(e.to_string()),
+                }
+            }
+            Action::Swap { long_in, amount } => match model.swap(*long_in, *amount, prices).and_then(|a| a.execute()) {
+                Ok(rep) => Outcome { result: Ok(ser(&rep)), report_dbg: format!("{rep:?}"), post: Some(post_of_sdk(&model, None, None)), trade_count: Some(model.state.other.trade_count) },
+                Err(e) => fail(e.to_string()),
+            },
+            Action::Deposit { long, short } => match model.deposit(*long, *short, prices).and_then(|a| a.execute()) {
+                Ok(rep) => {
+                    let after = model.total_supply();
+                    let minted = (after - supply as u128) as u64;
+                    Outcome { result: Ok(ser(&rep)), report_dbg: format!("{rep:?}"), post: Some(post_of_sdk(&model, None, Some((minted, 0)))), trade_count: Some(model.state.other.trade_count) }
+                }
+                Err(e) => fail(e.to_string()),
+            },
+            Action::Withdraw { amount } => match model.withdraw(*amount, prices).and_then(|a| a.execute()) {
+                Ok(rep) => {
+                    let after = model.total_supply();
+                    let burnt = (supply as u128 - after) as u64;
+                    Outcome { result: Ok(ser(&rep)), report_dbg: format!("{rep:?}"), post: Some(post_of_sdk(&model, None, Some((0, burnt)))), trade_count: Some(model.state.other.trade_count) }
+                }
+                Err(e) => fail(e.to_string()),
+            },
+            Action::Increase { .. } | Action::Decrease { .. } => {
+                let mut pm = match PositionModel::new(model, Arc::new(spos.expect("position"))) {
+                    Ok(p) => p,
+                    Err(e) => return fail(format!("sdk: PositionModel::new: {e}")),
+                };
+                let r: gmsol_model::Result<(Vec<u8>, String)> = match action {
+                    Action::Increase { collateral, size_delta_usd, acceptable } => pm
+                        .increase(prices, *collateral, *size_delta_usd, *acceptable)
+                        .and_then(|a| a.execute())
+                        .map(|rep| (ser(&rep), format!("{rep:?}"))),
+                    Action::Decrease { size_delta_usd, acceptable, withdraw, insolvent_ok, liquidation, cap } => pm
+                        .decrease(prices, *size_delta_usd, *acceptable, *withdraw, DecreasePositionFlags { is_insolvent_close_allowed: *insolvent_ok, is_liquidation_order: *liquidation, is_cap_size_delta_usd_allowed: *cap })
+                        .and_then(|a| a.execute())
+                        .map(|rep| (ser(&*rep), format!("{rep:?}"))),
+                    _ => unreachable!(),
+                };
+                match r {
+                    Ok((v, d)) => {
+                        let st = pos_state_sdk(&pm.position().state);
+                        Outcome { result: Ok(v), report_dbg: d, post: Some(post_of_sdk(pm.market_model(), Some(st), None)), trade_count: Some(pm.market_model().state.other.trade_count) }
+                    }
+                    Err(e) => fail(e.to_string()),
+                }
+            }
+        }
+    })
+}
+
+fn gen_action(rng: &mut Rng, sc: &Scene, kind: u64, pos: Option<&Position>) -> Action {
+    let usd = |rng: &mut Rng| -> u128 {
+        match rng.below(6) {
+            0 => rng.range_u128(1, 50),
+            1 => rng.range_u128(10_000, 2_000_000),
+            _ => rng.range_u128(10, 20_000),
+        }
+    };
+    match kind {
+        0 => Action::UpdateFees,
+        1 => {
+            let long_in = rng.bool();
+            let p = if long_in { sc.p_long } else { sc.p_short };
+            let mut amount = amt(usd(rng), p);
+            if rng.chance(1, 20) {
+                amount = *rng.pick(&[0u128, 1, u128::MAX, u64::MAX as u128]);
+            }
+            Action::Swap { long_in, amount }
+        }
+        2 => {
+            let mut long = if rng.chance(1, 4) { 0 } else { amt(usd(rng), sc.p_long) };
+            let mut short = if sc.pure_market || rng.chance(1, 4) { if sc.pure_market && rng.bool() { amt(usd(rng), sc.p_long) } else { 0 } } else { amt(usd(rng), sc.p_short) };
+            if rng.chance(1, 25) {
+                long = *rng.pick(&[0u128, 1, u128::MAX, u64::MAX as u128]);
+            }
+            if rng.chance(1, 25) {
+                short = *rng.pick(&[0u128, 1, u64::MAX as u128]);
+            }
+            Action::Deposit { long, short }
+        }
+        3 => {
+            let amount = match rng.below(8) {
+                0 => sc.supply as u128,
+                1 => sc.supply as u128 + 1,
+                2 => 0,
+                3 => 1,
+                _ => sc.supply as u128 / 10_000 * rng.range(1, 6_000) as u128,
+            };
+            Action::Withdraw { amount }
+        }
+        4 => {
+            let p = pos.unwrap();
+            let coll_long = p.collateral_token == sc.long_token;
+            let pc = if coll_long { sc.p_long } else { sc.p_short };
+            let cv = usd(rng);
+            let lev = rng.range(1, 30) as u128;
+            let collateral = if rng.chance(1, 6) { 0 } else { amt(cv, pc) };
+            let size_delta_usd = if rng.chance(1, 10) { 0 } else { cv * lev * UNIT };
+            let is_long = p.kind == 1;
+            let acceptable = match rng.below(5) {
+                0 => Some(if is_long { sc.p_index * 2 } else { sc.p_index / 2 }),
+                1 => Some(if is_long { sc.p_index / 2 } else { sc.p_index * 2 }), // unacceptable
+                _ => None,
+            };
+            Action::Increase { collateral, size_delta_usd, acceptable }
+        }
+        _ => {
+            let p = pos.unwrap();
+            let size = p.state.size_in_usd;
+            let size_delta_usd = match rng.below(6) {
+                0 => size,
+                1 => 0,
+                2 => size.saturating_add(UNIT),
+                _ => size / 100 * rng.range(1, 99) as u128,
+            };
+            let withdraw = match rng.below(4) {
+                0 => p.state.collateral_amount / 100 * rng.range(1, 50) as u128,
+                1 => p.state.collateral_amount,
+                _ => 0,
+            };
+            let is_long = p.kind == 1;
+            let acceptable = match rng.below(6) {
+                0 => Some(if is_long { sc.p_index / 2 } else { sc.p_index * 2 }),
+                1 => Some(if is_long { sc.p_index * 2 } else { sc.p_index / 2 }), // unacceptable
+                _ => None,
+            };
+            Action::Decrease { size_delta_usd, acceptable, withdraw, insolvent_ok: rng.chance(1, 4), liquidation: rng.chance(1, 6), cap: rng.chance(1, 3) }
+        }
+    }
+}
+
+fn outcome_str(o: &Result<Outcome, String>) -> String {
+    match o {
+        Err(p) => format!("panic: {p}"),
+        Ok(o) => format!("result={:?} report={} post={:?} trade_count={:?}", o.result.as_ref().map(|_| "ok"), o.report_dbg, o.post, o.trade_count),
+    }
+}
+
+fn prices_json(p: &Prices<u128>) -> vcommon::serde_json::Value {
+    let f = |x: &Price<u128>| json!({"min": x.min.to_string(), "max": x.max.to_string()});
+    json!({"index": f(&p.index_token_price), "long": f(&p.long_token_price), "short": f(&p.short_token_price)})
+}
+
+fn part_a(m: &mut Monitor, rng: &mut Rng, fully_random: bool) {
+    m.eval();
+    let mut sc = gen_scene(rng, false);
+    if fully_random {
+        rng.fill(&mut sc.market);
+        if rng.bool() {
+            // keep clocks near `now` so that passed-seconds are not all saturated
+            let off = std::mem::offset_of!(SdkMarket, state) + std::mem::offset_of!(gmsol_programs::gmsol_store::types::State, clocks);
+            for i in 0..5 {
+                let t = sc.now - rng.range_i64(-100, 100_000);
+                sc.market[off + 16 + 8 * i..off + 24 + 8 * i].copy_from_slice(&t.to_le_bytes());
+            }
+        }
+    } else if rng.chance(1, 3) {
+        // virtual inventory addresses set (program's direct market view must refuse, SDK without VI model too)
+        let mut mk = sdk_market(&sc.market).unwrap();
+        if rng.bool() {
+            mk.virtual_inventory_for_swaps = util::pk("vi-swaps", 1);
+        }
+        if rng.bool() {
+            mk.virtual_inventory_for_positions = util::pk("vi-positions", 1);
+        }
+        sc.market = bytemuck::bytes_of(&mk).to_vec();
+    }
+    let buf = Aligned::from_bytes(&sc.market);
+    let prog: &Market = buf.view::<Market>();
+    let sdk = match sdk_market(&sc.market) {
+        Ok(s) => s,
+        Err(e) => {
+            m.violation("C40:sdk_decode:failed", json!({"error": e}));
+            return;
+        }
+    };
+    let model = MarketModel::from_parts(Arc::new(sdk), sc.supply);
+    let wit = |what: &str, detail: vcommon::serde_json::Value| json!({"what": what, "market_bytes_hex": util::hex(&sc.market), "prices": prices_json(&sc.prices), "now": sc.now, "supply": sc.supply, "detail": detail});
+
+    // ---- plain fields ----
+    let mut diffs: Vec<String> = vec![];
+    {
+        let mut chk = |name: &str, a: String, b: String| {
+            if a != b {
+                diffs.push(format!("{name}: program={a} sdk={b}"));
+            }
+        };
+        chk("meta", format!("{:?}", (prog.meta().market_token_mint, prog.meta().index_token_mint, prog.meta().long_token_mint, prog.meta().short_token_mint)), format!("{:?}", (model.meta.market_token_mint, model.meta.index_token_mint, model.meta.long_token_mint, model.meta.short_token_mint)));
+        chk("store", prog.store.to_string(), model.store.to_string());
+        chk("name", format!("{:?}", prog.name().ok()), format!("{:?}", model.name().ok()));
+        // duplicated flag enums: program accessors vs the SDK's flag container and its private copy
+        let flags = [MarketFlag::Enabled, MarketFlag::Pure, MarketFlag::AutoDeleveragingEnabledForLong, MarketFlag::AutoDeleveragingEnabledForShort, MarketFlag::GTEnabled, MarketFlag::Closed];
+        let names = ["enabled", "pure", "adl_long", "adl_short", "gt", "closed"];
+        let pvals = [prog.is_enabled(), prog.is_pure(), prog.is_adl_enabled(true), prog.is_adl_enabled(false), prog.is_gt_minting_enabled(), prog.is_closed()];
+        for (i, f) in flags.into_iter().enumerate() {
+            chk(&format!("flag:{}", names[i]), pvals[i].to_string(), model.flags.get_flag(f).to_string());
+        }
+        chk("is_pure(model)", prog.is_pure().to_string(), model.is_pure().to_string());
+        for f in MarketConfigFlag::iter() {
+            chk(&format!("config_flag:{f}"), prog.get_config_flag_by_key(f).to_string(), model.config.flag.get_flag(f).to_string());
+        }
+        for k in MarketConfigKey::iter() {
+            chk(&format!("config:{k}"), format!("{:?}", prog.get_config_by_key(k)), format!("{:?}", model.config.get(k)));
+        }
+        for k in [ClockKind::PriceImpactDistribution, ClockKind::Borrowing, ClockKind::Funding, ClockKind::AdlForLong, ClockKind::AdlForShort] {
+            chk(&format!("clock:{k:?}"), format!("{:?}", prog.clock(k)), format!("{:?}", model.state.clocks.get(k)));
+        }
+        for k in PoolKind::iter() {
+            let a = prog.pool(k).map(|p| prog_pool_raw(&p));
+            let b = sdk_pool(&model.state.pools, k);
+            chk(&format!("pool_raw:{k}"), format!("{a:?}"), format!("{b:?}"));
+        }
+        let o = prog.state();
+        chk("other", format!("{} {} {} {}", o.long_token_balance_raw(), o.short_token_balance_raw(), o.funding_factor_per_second(), o.trade_count()), format!("{} {} {} {}", model.state.other.long_token_balance, model.state.other.short_token_balance, model.state.other.funding_factor_per_second, model.state.other.trade_count));
+        let ix = prog.indexer();
+        chk("indexer", format!("{} {} {} {} {} {}", ix.deposit_count(), ix.withdrawal_count(), ix.order_count(), ix.shift_count(), ix.glv_deposit_count(), ix.glv_withdrawal_count()), format!("{} {} {} {} {} {}", model.indexer.deposit_count, model.indexer.withdrawal_count, model.indexer.order_count, model.indexer.shift_count, model.indexer.glv_deposit_count, model.indexer.glv_withdrawal_count));
+        chk("vi_swaps", format!("{:?}", prog.virtual_inventory_for_swaps()), format!("{:?}", (model.virtual_inventory_for_swaps != Pubkey::default()).then_some(&model.virtual_inventory_for_swaps)));
+        chk("vi_positions", format!("{:?}", prog.virtual_inventory_for_positions()), format!("{:?}", (model.virtual_inventory_for_positions != Pubkey::default()).then_some(&model.virtual_inventory_for_positions)));
+    }
+    // ---- model traits ----
+    let mint = make_mint(sc.supply);
+    let r = guard(|| {
+        let mut a = vec![];
+        snapshot(prog, &sc.prices, &mut a);
+        liquidity_snapshot(&prog.as_liquidity_market(&mint), &sc.prices, &mut a);
+        a
+    });
+    let s = guard(|| {
+        let mut a = vec![];
+        snapshot(&model, &sc.prices, &mut a);
+        liquidity_snapshot(&model, &sc.prices, &mut a);
+        a
+    });
+    match (r, s) {
+        (Ok(a), Ok(b)) => {
+            for (x, y) in a.iter().zip(b.iter()) {
+                if x != y {
+                    diffs.push(format!("{}: program={} sdk={}", x.0, x.1, y.1));
+                }
+            }
+            m.add("accessors_compared", a.len() as u64);
+        }
+        (a, b) => {
+            // a panic on one side only is a disagreement; on both sides it is counted
+            match (&a, &b) {
+                (Err(_), Err(_)) => m.count("both_panicked_on_same_bytes"),
+                _ => diffs.push(format!("panic on one side: program={:?} sdk={:?}", a.as_ref().err(), b.as_ref().err())),
+            }
+        }
+    }
+    // ---- position view on the same market ----
+    if !fully_random || rng.bool() {
+        let (pos, _) = gen_position(rng, &sc, false);
+        if let Ok(spos) = sdk_position(bytemuck::bytes_of(&pos)) {
+            let pa = guard(|| {
+                let mut a = vec![];
+                match pos.as_position(prog) {
+                    Ok(p) => position_snapshot(&p, &sc.prices, &mut a),
+                    Err(e) => a.push(("as_position".into(), format!("Err({e})"))),
+                }
+                a
+            });
+            let sa = guard(|| {
+                let mut a = vec![];
+                match PositionModel::new(model.clone(), Arc::new(spos)) {
+                    Ok(p) => position_snapshot(&p, &sc.prices, &mut a),
+                    Err(e) => a.push(("as_position".into(), format!("Err({e})"))),
+                }
+                a
+            });
+            if let (Ok(a), Ok(b)) = (pa, sa) {
+                if a.len() == b.len() && a.len() > 1 {
+                    for (x, y) in a.iter().zip(b.iter()) {
+                        if x != y {
+                            diffs.push(format!("{}: program={} sdk={}", x.0, x.1, y.1));
+                        }
+                    }
+                    m.add("position_accessors_compared", a.len() as u64);
+                } else {
+                    m.count("position_view_not_constructible_on_one_side");
+                }
+            }
+        }
+    }
+    if diffs.is_empty() {
+        m.count(if fully_random { "views_equal_random_bytes" } else { "views_equal_structured" });
+        let sig = vcommon::rng::fnv(&sc.market);
+        m.nontrivial_hash(sig);
+    } else {
+        let first = diffs[0].split(':').next().unwrap_or("").to_string();
+        let class = first.split('(').next().unwrap_or("").to_string();
+        m.violation(&format!("C40:view:{class}:differs"), wit("accessor values differ on identical bytes", json!(diffs.iter().take(12).collect::<Vec<_>>())));
+    }
+}
+
+fn part_b(m: &mut Monitor, rng: &mut Rng, w: &World) {
+    let kind = rng.below(6);
+    let for_positions = kind >= 4;
+    let sc = gen_scene(rng, for_positions);
+    let (pos, store_mismatch) = if for_positions {
+        let fresh = kind == 4 && rng.chance(1, 3);
+        let (p, sm) = gen_position(rng, &sc, fresh);
+        (Some(p), sm)
+    } else {
+        (None, false)
+    };
+    let action = gen_action(rng, &sc, kind, pos.as_ref());
+    m.eval();
+    w.load(&sc, pos.as_ref());
+    util::set_clock(sc.now, 12345);
+    let cpi_before = util::cpi_count();
+    let p = run_program(w, &sc, &action);
+    let cpis = util::cpi_count() - cpi_before;
+    let s = run_sdk(&sc, pos.as_ref(), &action);
+    let name = action.name();
+    let wit = |what: &str, p: &Result<Outcome, String>, s: &Result<Outcome, String>| {
+        json!({
+            "what": what, "action": action.to_json(), "prices": prices_json(&sc.prices), "now": sc.now, "supply": sc.supply,
+            "market_bytes_hex": util::hex(&sc.market),
+            "position_bytes_hex": pos.as_ref().map(|p| util::hex(bytemuck::bytes_of(p))),
+            "program": outcome_str(p),
+            "sdk": outcome_str(s),
+        })
+    };
+    let (po, so) = match (&p, &s) {
+        (Ok(a), Ok(b)) => (a, b),
+        (Err(_), Err(_)) => {
+            m.count(&format!("{name}:both_panicked"));
+            return;
+        }
+        _ => {
+            m.violation(&format!("C40:sim:{name}:panic_on_one_side"), wit("one side panicked", &p, &s));
+            return;
+        }
+    };
+    if let Err(e) = &po.result {
+        if e.starts_with("harness:") {
+            m.inconclusive(&format!("harness could not build program-side accounts: {e}"));
+            return;
+        }
+    }
+    // program-only validation of position vs market status (SDK's on_validate is a no-op by design)
+    let validation_flaw = for_positions && (sc.closed || !sc.enabled || store_mismatch);
+    match (&po.result, &so.result) {
+        (Ok(a), Ok(b)) => {
+            if validation_flaw {
+                m.violation(&format!("C40:sim:{name}:program_accepted_invalid_market_status"), wit("program executed a position action on a closed/disabled/foreign market", &p, &s));
+                return;
+            }
+            if a != b {
+                m.violation(&format!("C40:sim:{name}:report_differs"), wit("reports differ", &p, &s));
+                return;
+            }
+            let (pp, sp) = (po.post.as_ref().unwrap(), so.post.as_ref().unwrap());
+            if pp != sp {
+                let mut which = "post_state";
+                if pp.pools != sp.pools {
+                    which = "pools";
+                } else if pp.clocks != sp.clocks {
+                    which = "clocks";
+                } else if pp.balances != sp.balances {
+                    which = "balances";
+                } else if pp.position != sp.position {
+                    which = "position";
+                } else if pp.minted_burnt != sp.minted_burnt {
+                    which = "mint_burn";
+                }
+                m.violation(&format!("C40:sim:{name}:{which}_differ"), wit("resulting state differs", &p, &s));
+                return;
+            }
+            // committed storage == SDK's final market (swap / fees / position actions are committed)
+            if !matches!(action, Action::Deposit { .. } | Action::Withdraw { .. }) {
+                let data = w.market.data();
+                match sdk_market(&data[8..]) {
+                    Ok(stored) => {
+                        let committed = post_of_sdk(&stored, pp.position, None);
+                        if committed != *sp {
+                            m.violation(&format!("C40:sim:{name}:committed_storage_differs"), wit("market account after commit differs from the SDK's final state", &p, &s));
+                            return;
+                        }
+                        m.count("committed_storage_equal");
+                    }
+                    Err(e) => m.inconclusive(&format!("cannot decode committed market: {e}")),
+                }
+                if cpis == 0 {
+                    m.count("note_commit_without_event_cpi");
+                }
+            }
+            // documented bookkeeping difference: program bumps trade_count on position changes
+            if let (Some(a), Some(b)) = (po.trade_count, so.trade_count) {
+                if for_positions {
+                    if a == b + 1 || a == b {
+                        m.count("trade_count_program_plus_one_or_equal(documented)");
+                    } else {
+                        m.violation(&format!("C40:sim:{name}:trade_count_unexpected"), wit("trade_count", &p, &s));
+                    }
+                } else if a != b {
+                    m.violation(&format!("C40:sim:{name}:trade_count_unexpected"), wit("trade_count", &p, &s));
+                }
+            }
+            m.count(&format!("{name}:ok_equal"));
+            if sc.pure_market {
+                m.count(&format!("{name}:ok_equal_pure_market"));
+            }
+            if sc.closed {
+                m.count(&format!("{name}:ok_equal_closed_market"));
+            }
+            let h = vcommon::rng::fnv(a) ^ vcommon::rng::fnv(name.as_bytes());
+            m.nontrivial_hash(h);
+            if m.wants_sample() {
+                m.sample(json!({"action": action.to_json(), "pure_market": sc.pure_market, "report": po.report_dbg.chars().take(600).collect::<String>()}));
+            }
+        }
+        (Err(a), Err(b)) => {
+            if a == b {
+                m.count(&format!("{name}:err_equal"));
+            } else if validation_flaw && a.contains("invalid, closed or disabled market") {
+                m.count(&format!("{name}:program_only_status_validation(documented)"));
+            } else {
+                m.violation(&format!("C40:sim:{name}:errors_differ"), wit("both failed with different errors", &p, &s));
+            }
+        }
+        (Err(a), Ok(_)) => {
+            if validation_flaw && (a.contains("invalid, closed or disabled market")) {
+                m.count(&format!("{name}:program_only_status_validation(documented)"));
+            } else {
+                m.violation(&format!("C40:sim:{name}:program_fails_sdk_succeeds"), wit("program failed, SDK succeeded", &p, &s));
+            }
+        }
+        (Ok(_), Err(_)) => {
+            m.violation(&format!("C40:sim:{name}:sdk_fails_program_succeeds"), wit("SDK failed, program succeeded", &p, &s));
+        }
+    }
+}
+
+pub fn run(args: &Args) -> i32 {
+    let mut mon = Monitor::new(
+        args,
+        "(a) case = Market bytes, either structured (real Market::init defaults, then randomised config / 16 pools / clocks / balances / flags incl. pure markets, closed-market parameters, virtual-inventory addresses, occasional absurd value) or fully random bytes, read through the program's Market (+AsLiquidityMarket, AsPosition) and the SDK's MarketModel (+PositionModel): every model-trait accessor and ~60 derived computations at random prices; plus the static layout table. (b) case = structured market + random action {fee-state update, swap, deposit, withdrawal, increase, decrease} executed on the program's revertible types and on the SDK model at the same pinned time. Non-trivial = (a) all views equal on that byte string (distinct by hash of the bytes), (b) action succeeded on both sides with equal report and state (distinct by hash of the report).",
+    );
+    let per_shard_a = args.scale(400, 12_000);
+    let per_shard_b = args.scale(3_000, 90_000);
+    let shards = 64u64;
+    // static layout table once
+    crate::layout::check(&mut mon);
+    vcommon::monitor::run_shards(&mut mon, args.threads, shards, |shard, m| {
+        let mut rng = Rng::derive(args.seed, shard, 40);
+        for i in 0..per_shard_a {
+            part_a(m, &mut rng, i % 3 == 2);
+        }
+        let w = World::new();
+        for _ in 0..per_shard_b {
+            part_b(m, &mut rng, &w);
+        }
+    });
+    mon.require("layout_accounts_equal", 20);
+    mon.require("views_equal_structured", 1_000);
+    mon.require("views_equal_random_bytes", 500);
+    mon.require("accessors_compared", 100_000);
+    mon.require("position_accessors_compared", 10_000);
+    for a in ["update_fees", "swap", "deposit", "withdraw", "increase", "decrease"] {
+        mon.require(&format!("{a}:ok_equal"), 500);
+        mon.require(&format!("{a}:err_equal"), 50);
+    }
+    mon.require("swap:ok_equal_pure_market", 0);
+    mon.require("deposit:ok_equal_pure_market", 50);
+    mon.require("committed_storage_equal", 1_000);
+    mon.set_extra(
+        "documented_differences_not_compared",
+        json!([
+            "position bookkeeping written by the program's on_increased/on_decreased hooks (trade_id, increased_at/decreased_at, updated_at_slot) and the market's trade_count: the SDK's PositionModel hooks are no-ops by design",
+            "position-vs-market status validation (market closed / disabled / store mismatch) exists only in the program's on_validate; the SDK's is a no-op — counted as program_only_status_validation",
+            "virtual inventories: part (b) runs with virtual inventories disabled on both sides (program: none passed; SDK: markets without VI addresses)",
+            "deposit / withdrawal on the program side are compared on the buffered (pre-commit) view and the deferred mint/burn amounts; the commit itself would CPI into the token program",
+            "revision counters (rev fields) of pools/clocks/other state are revertible-buffer bookkeeping and are not part of the SDK model"
+        ]),
+    );
+    mon.assume("program side of (b) is driven at the model-trait level through the cfg(gmsol_verif) wrappers, not through instructions (instruction-level differential is a separate check)");
+    mon.finish()
 }
